@@ -37,6 +37,9 @@ func KeySet(pattern string, n int, c *ref.Curve) []*big.Int {
 			ks[i] = new(big.Int).SetBytes(b) // >= 2^255, i.e. above both group orders
 		case "multiples":
 			ks[i] = big.NewInt(int64(6 * (i + 1)))
+		case "byte-boundary": // ids whose minimal byte encodings have different lengths: 254, 255, 256, 257, 65535, 65536, ...
+			v := []int64{254, 255, 256, 257, 65535, 65536, 16777215, 16777216}
+			ks[i] = big.NewInt(v[i%len(v)] + int64(i/len(v))*1000003)
 		default:
 			panic("unknown key pattern " + pattern)
 		}
